@@ -477,13 +477,14 @@ func c19(r *core.Run) {
 					o.Fail(p.InstrPos(c), "%s removes %s, which is neither an outdated backup nor a file just compressed", core.FuncName(f), core.Describe(arg))
 					continue
 				}
-				if core.Describe(core.Forward(arg)) != core.Describe(core.Forward(core.Args(opens[0])[0])) {
+				// (a name kept in a field of a local struct – `t := gzipTask{src: file}` – is the value stored there)
+				if core.Describe(core.ForwardField(arg)) != core.Describe(core.ForwardField(core.Args(opens[0])[0])) {
 					o.Fail(p.InstrPos(c), "the file removed after compression (%s) is not the file that was compressed (%s)", core.Describe(arg), core.Describe(core.Args(opens[0])[0]))
 				}
-				if w := core.Requires(f, core.Is(c), core.ErrNil(1, isCopy)); w != nil {
+				if w := c19RequiresNil(f, core.Is(c), func(v ssa.Value) bool { return core.IsResult(v, 1, isCopy) }); w != nil {
 					o.Fail(p.InstrPos(c), "the uncompressed backup is removed although copying it into the gzip file failed (or the copy was not attempted)")
 				}
-				if w := core.Requires(f, core.Is(c), core.ErrNil(0, isGzClose)); w != nil {
+				if w := c19RequiresNil(f, core.Is(c), func(v ssa.Value) bool { return core.IsResult(v, 0, isGzClose) }); w != nil {
 					o.Fail(p.InstrPos(c), "the uncompressed backup is removed although closing the gzip stream failed or has not happened (trailer not written: the copy is unreadable)")
 				}
 				// the copy goes from the opened file into a gzip writer on the created .gz file
@@ -610,11 +611,13 @@ func c19(r *core.Run) {
 		}
 		prefixLoops := 0
 		// what is marked outdated
-		marks := core.Instrs(f, func(in ssa.Instruction) bool {
-			mu, ok := in.(*ssa.MapUpdate)
-			return ok && mu.Map.Type().String() != "" && func() bool { _, isMk := mu.Map.(*ssa.MakeMap); return isMk }()
-		})
+		// (a map update on a map made here, or a call of a function literal of this function that
+		// stores its parameter into such a map: `r.each(func(f string) { outdated[f] = … })`)
+		marks, marksOK := c19Marks(f)
 		o.Site(len(marks))
+		if !marksOK {
+			o.Fail(p.Pos(f.Pos()), "a function literal of %s records something other than the name it is called with", core.FuncName(f))
+		}
 		isBoundary := func(v ssa.Value) bool {
 			return core.DependsOn(v, func(x ssa.Value) bool {
 				c, ok := x.(*ssa.Call)
@@ -622,8 +625,12 @@ func c19(r *core.Run) {
 			})
 		}
 		older := core.Cmp(token.LSS, func(v ssa.Value) bool { return !isBoundary(v) }, isBoundary)
-		for _, in := range marks {
-			mu := in.(*ssa.MapUpdate)
+		for _, mk := range marks {
+			if mk.key == nil {
+				continue
+			}
+			in := mk.site
+			mu := struct{ Key ssa.Value }{mk.key}
 			fromPrefix := core.DependsOn(mu.Key, func(v ssa.Value) bool {
 				s, ok := v.(*ssa.Slice)
 				return ok && s.Low == nil && s.High != nil
@@ -676,27 +683,40 @@ func c19(r *core.Run) {
 			c, ok := in.(*ssa.Call)
 			return ok && core.CalleeName(c) == "(*os.File).Sync" && core.IsFieldLoad(core.Args(c)[0], "RotateLogger.fp")
 		}
+		// the shutdown sequence is the function handed to closeOnce.Do – a function literal, a named
+		// function, or a bound method value `x.shutdown` (then the method behind the wrapper)
+		pkgFns := p.PkgFuncs(logxPkg)
+		mcSites, wrappers := c19ClosureSites(pkgFns)
 		var body *ssa.Function
-		for _, f := range loggerFns {
-			for _, in := range core.Instrs(f, isCloseDone) {
-				if body != nil && body != f {
-					o.Fail(p.InstrPos(in), "l.done is closed in two places (double close panics)")
-				}
-				body = f
+		once := false
+		for _, c := range core.Calls(cl, core.CallTo("(*sync.Once).Do")) {
+			if core.FieldAddrName(core.Args(c)[0]) != "RotateLogger.closeOnce" {
+				continue
 			}
+			if g := c19FuncOf(core.Args(c)[1], mcSites); g != nil && g.Blocks != nil && len(core.Instrs(g, isCloseDone)) > 0 {
+				body, once = g, true
+			}
+		}
+		var closers []*ssa.Function
+		for _, f := range append(append([]*ssa.Function{}, pkgFns...), wrappers...) {
+			if len(core.Instrs(f, isCloseDone)) > 0 {
+				closers = append(closers, f)
+			}
+		}
+		if body == nil && len(closers) > 0 {
+			body = closers[0]
 		}
 		if !o.Need(body != nil, "the function closing l.done") {
 			return
 		}
+		for _, f := range closers {
+			if c19Canon(f) != c19Canon(body) {
+				o.Fail(p.InstrPos(core.Instrs(f, isCloseDone)[0]), "l.done is closed in two places (double close panics)")
+			}
+		}
 		r.Fn(core.FuncName(cl), core.FuncName(body))
 		sites := core.Instrs(body, core.Or(isCloseDone, isWait, isSync, isFpClose))
 		o.Site(len(sites), core.FuncName(body))
-		once := false
-		for _, c := range core.Calls(cl, core.CallTo("(*sync.Once).Do")) {
-			if g, _ := gxClosureOf(core.Args(c)[1]); g == body && core.FieldAddrName(core.Args(c)[0]) == "RotateLogger.closeOnce" {
-				once = true
-			}
-		}
 		if !once {
 			o.Fail(p.Pos(cl.Pos()), "the shutdown sequence is not run through l.closeOnce.Do: a second Close closes done twice (panic)")
 		}
@@ -743,7 +763,7 @@ func c19(r *core.Run) {
 						return false
 					}
 					for _, st := range s.States {
-						if st.Dir == 2 && core.IsFieldLoad(st.Chan, "RotateLogger.channel") { // types.RecvOnly
+						if st.Dir == 2 && core.IsFieldLoad(c19Resolve(st.Chan, mcSites), "RotateLogger.channel") { // types.RecvOnly
 							return true
 						}
 					}
@@ -775,8 +795,13 @@ func c19(r *core.Run) {
 					if !ok {
 						return false
 					}
+					callee := c.Call.StaticCallee()
+					if callee == nil && !c.Call.IsInvoke() {
+						// the writer held as a function value (`handle: l.write` captured by the worker)
+						callee = c19FuncOf(c.Call.Value, mcSites)
+					}
 					for _, w := range writers {
-						if c.Call.StaticCallee() == w {
+						if callee == w {
 							return true
 						}
 					}
